@@ -287,7 +287,7 @@ def filters(ctx: Ctx):
     ctx.require_min("hidden filters", 3)
 
 
-def stale_reference_table(ctx: Ctx):
+def stale_reference_table(ctx: Ctx, rule: str = "hidden-set.stale-reference"):
     """"Hidden exactly when it is explicitly hidden": a transform key that names NO item of an array dimension (unknown
     string, out-of-range or NEGATIVE position, None) resolves to nothing - it must not be wrapped around to the last
     item.  The decision list of `_ElementIdShim.translate_element_id` evaluated (DECTAB, models of C19) on those keys."""
@@ -315,10 +315,10 @@ def stale_reference_table(ctx: Ctx):
                 if got is not None:
                     bad.append(f"{label} ({val!r}) -> {got!r}")
     except DTop as t:
-        ctx.undecided("hidden-set.stale-reference", where, "DECTAB: " + str(t), "keys naming no item resolve to None")
+        ctx.undecided(rule, where, "DECTAB: " + str(t), "keys naming no item resolve to None")
         return
     ctx.count("stale keys evaluated", n)
-    ctx.ob("hidden-set.stale-reference", where, bad[:4] or f"{n} keys naming no item -> None", "a key that names no item hides (orders, fixes) nothing", not bad,
+    ctx.ob(rule, where, bad[:4] or f"{n} keys naming no item -> None", "a key that names no item hides (orders, fixes) nothing", not bad,
            "a stale key such as '-1' (the No Data category id of a variable since replaced by an array) hides the LAST item although nobody asked for it")
     ctx.require_min("stale keys evaluated", 12)
 
